@@ -60,6 +60,19 @@ def c07_runs(tier):
 
 
 PROPS = {
+    "C17": {
+        "engine": "enumeration + rapidcheck",
+        "technique": "reference-model comparison: independent definite-length block encoder (shift-based byte order) and an accounting model for streamed blocks, over an enumerated grid and rapidcheck-generated result sequences",
+        "level": "all ten element types x lengths 0..300 x NORMAL/SWAPPED, blocks 0..300 bytes, header-only calls for every power of ten up to "
+                 "10^8 and 999999999, every split of a streamed block of <= 12 bytes into <= 4 data calls with an over-length attempt at "
+                 "every point and items before/after, plus random sequences of arrays, blocks, streamed blocks and scalars; byte-identical output, exactly one -310 per refused data call",
+        "level_note": "only a little-endian host can be executed; the response terminator is not asserted here (C06); a block header is always followed by at least one data call",
+        "design_ref": "DESIGN.md section 4, C17",
+        "runs": simple("c17"),
+        "rule": "case = sequence of result calls of one query handler; grid cases distinct by construction, random by hash; non-trivial = a "
+                "block/array of >= 10 bytes (multi-digit header), a streamed block, or an over-length attempt",
+        "assumptions": COMMON_ASSUME + ["little-endian host only"],
+    },
     "C20": {
         "engine": "exhaustive sequence enumeration + rapidcheck stateful histories",
         "technique": "model-based stateful testing in the static-heap build: reference queue whose entries carry 'the pushed text or nothing', unique texts per history, exact-size heap under ASan, full-reuse probe after every history",
